@@ -34,7 +34,7 @@ var standinTrees = []standinTree{
 	{"t3", []string{"ab", "ab/a", "ab/a/b"}, []string{"ab/a/b/c.d", "ab/b", "a", "b"}},
 }
 
-var standinPool = []string{"a", "ab", "a-b", "b", "c.d", "a/b", "a/b/c", "b/a", "*", "a*", "?b", "**", "**/b", "a/**", "a/*", "*/b", "[ab]", "a/b/**", "**/c.d",
+var standinPool = []string{"a", "ab", "a-b", "b", "c.d", "a/b", "a/b/c", "b/a", "*", "a*", "?b", "**", "**/b", "a/**", "a/*", "*/b", "[ab]", "a/b/**", "**/c.d", "a/*/**", "*/*/**", "ab/*/*",
 	"!a", "!a/b", "!ab", "!**/b", "!a*", "!a/b/c", "!b"}
 
 func standinListing(root string) []string {
